@@ -42,10 +42,10 @@ MANIFEST = {
     "technique": "Lean theorems by induction over transition lists of a hand-written protocol model + runtime refinement monitor and physical-truth oracle on the real devices",
     "translated": False,
 }
-RULE = ("a case = a machine configuration (topology std|two_src, trough slots 3-5, balls 1-4, max_eject_attempts per device, "
+RULE = ("a case = a machine configuration (topology std|two_src|chain [trough->launcher->{playfield|lock}, every 5th case], trough slots 3-5, balls 1-4, max_eject_attempts per device, "
         "eject/ball-missing/idle timeouts), physical timings on the 1/16 s grid (leave, transit, fall-back, lateness, playfield "
         "switch or not), one outcome list per device (ok/stuck/fallback/late/astray) and 3-14 actions (add_ball, drain, lock "
-        "shot claimed or not, release_lock, escape, playfield switch hit, wait, rest). non-trivial = at least one ball physically "
+        "shot claimed or not, release_lock, request_lock [two-hop request to a non-playfield target], escape, playfield switch hit, wait, rest). non-trivial = at least one ball physically "
         "left a device; distinct = canonical JSON of the case")
 TRUSTED = ["modelled, not verified: the coroutines of mpf/devices/ball_device/*.py are tied to the ledger only by the runtime "
            "monitor (sampled schedules), not by proof; asyncio scheduling, switch debounce (switch_counter._run), timers",
@@ -129,7 +129,54 @@ SCENARIOS = [
 ]
 
 
+def chain_restore_case():
+    """directed history of the multi-hop class (trough -> launcher -> one of two targets): the ball of a request to the
+    non-playfield target is lost on the first hop while no replacement exists anywhere, so the path restoration is queued in
+    the trough; the lost balls drain back later (first one serves the queued request, second one stays in the trough); then
+    another request through the launcher must be served from the trough.  Must pass on correct code: it pins the
+    compensating `available_balls -= 1` of lost_ejected_ball's restore branch (a phantom available ball in the launcher makes
+    the last request start its chain at the empty launcher, which then waits for ever)."""
+    g = bw.GRID
+    return {"p": {"topo": "chain", "slots": 3, "balls": 2, "tries_trough": 3, "tries_plunger": 3, "tries_lock": 3,
+                  "eject_to": 2000, "missing_to": 4000, "idle_to": 2000},
+            "timing": {"leave": g, "transit": 4 * g, "fallback": 6 * g, "late": 8 * g, "pf_switch": True},
+            "outcomes": {"trough": ["ok", "astray"]},
+            "ops": [["add_ball"], ["rest"], ["request_lock"], ["rest"], ["drain"], ["rest"], ["drain"], ["rest"], ["add_ball"],
+                    ["rest"]]}
+
+
+def gen_chain_case(r):
+    """random histories on the chain topology: requests to the lock (two hops) and to the playfield, first-hop losses
+    (astray), drains bringing the lost balls back at any later time"""
+    p = gen_params(r, "chain")
+    p["balls"] = r.randint(1, 3)
+    oc = gen_outcomes(r, r.choice([0.0, 0.2, 0.4]))
+    for j in range(3):
+        if r.random() < 0.4:
+            oc["trough"][j] = "astray"
+    ops = []
+    for _ in range(r.randint(4, 14)):
+        k = r.random()
+        if k < 0.22:
+            ops.append(["request_lock"])
+        elif k < 0.4:
+            ops.append(["add_ball"])
+        elif k < 0.6:
+            ops.append(["drain"])
+        elif k < 0.66:
+            ops.append(["release_lock"])
+        elif k < 0.72:
+            ops.append(["lock", r.random() < 0.5])
+        elif k < 0.86:
+            ops.append(["wait", r.choice([1, 8, 16, 33, 64, 120, 160])])
+        else:
+            ops.append(["rest"])
+    return {"p": p, "timing": gen_timing(r), "outcomes": oc, "ops": ops}
+
+
 def gen_case(r, i, heavy=False):
+    if i % 5 == 4:
+        return gen_chain_case(r)
     if heavy and r.random() < 0.5:
         # C05 stream: long failure sequences (up to max_eject_attempts + 2), overlapping requests
         p = gen_params(r, "std")
@@ -207,7 +254,7 @@ WITNESS_SIGS = tuple(w[0] for w in WITNESSES)
 
 def shrink(case, sig):
     def fails(ops):
-        res = bw.run_case(dict(case, ops=ops), None)
+        res = bw.run_case(dict(case, ops=ops), None, "C05" if bw.is_progress_sig(sig) else "C04")
         return any(f[0] == sig for f in res.failures)
     try:
         return dict(case, ops=ddmin(case["ops"], fails, max_tests=60))
@@ -220,7 +267,7 @@ LISTED = (KNOWN_SIG, STARVED_SIG) + WITNESS_SIGS      # classes with a directed 
 
 def eval_case(ctx, case, model, focus):
     """focus: 'C04' (counts) | 'C05' (progress): which oracle failures belong to this property"""
-    res = bw.run_case(case, model)
+    res = bw.run_case(case, model, focus)
     ctx.evaluated(case, res.nontrivial)
     for k, v in res.hist.items():
         ctx.count(k, v)
@@ -231,8 +278,7 @@ def eval_case(ctx, case, model, focus):
         # one comparison per case: the whole observed history is an enabled ledger run with equal counts at every step
         ctx.compare(dict(case, what="monitor"), "refines" if res.mismatch is None else res.mismatch, "refines")
     for sig, detail in res.failures:
-        mine = sig.startswith("progress:") or sig.startswith("stuck:") or sig.startswith("rest:servable") or sig.startswith("rest:requested") \
-            or sig.startswith("rest:never") or sig.startswith("rest:device-not-idle") or sig.startswith("rest:eject-queue")
+        mine = bw.is_progress_sig(sig)
         if (focus == "C05") != mine and not sig.startswith("crash:"):
             ctx.count("other_property_failure")
             continue
@@ -247,6 +293,9 @@ def eval_case(ctx, case, model, focus):
 def run(ctx, focus="C04", ident=ID):
     model = None if getattr(ctx, "model_unavailable", False) else leanproc.LeanProc(ident)
     try:
+        res = eval_case(ctx, chain_restore_case(), model, focus)
+        ctx.notes["chain_restore_case"] = {"failures": [f[0] for f in res.failures], "lostEjected": res.hist.get("op_lostEjected", 0),
+                                           "queued_replacement": res.hist.get("op_queueReq", 0)}
         if focus == "C04":
             eval_case(ctx, d16_case(ctx.rng("d16")), model, focus)
             for sig, wcase in WITNESSES:
